@@ -29,7 +29,7 @@ Print Assumptions C11_arg_form.
 Theorem C11_o2o : forall t c,
     is_ref (c_kind c) = true ->
     let these_lts := flat_map (fun g => if gp_is_lt g then [gp_name g] else []) (tv_generics t) in
-    let those_lts := angle_lts (tp_generics (c_ty c)) in
+    let those_lts := declarable_lts (angle_lts (tp_generics (c_ty c))) in
     let ref_lts := if is_from (c_kind c) then these_lts else those_lts in
     ref_lts <> [] ->
     env_get (trait_env t c) "r" = P1 "&" :: lifetime "o2o" /\
@@ -42,7 +42,7 @@ Print Assumptions C11_o2o.
 Theorem C11_no_o2o : forall t c,
     is_ref (c_kind c) = false ->
     env_get (trait_env t c) "r" = [] /\
-    env_get (trait_env t c) "impl_gens" = print_impl_generics (add_missing_lts (tv_generics t) (angle_lts (tp_generics (c_ty c)))).
+    env_get (trait_env t c) "impl_gens" = print_impl_generics (add_missing_lts (tv_generics t) (declarable_lts (angle_lts (tp_generics (c_ty c))))).
 Proof. exact no_o2o_otherwise. Qed.
 Print Assumptions C11_no_o2o.
 
@@ -63,3 +63,9 @@ Print Assumptions C11_own_where.
 Theorem C11_no_own_where : forall w, print_where_all [] w = print_where w.
 Proof. exact no_own_where. Qed.
 Print Assumptions C11_no_own_where.
+
+(* 'static and '_ are not lifetime parameters: they are never declared on the impl nor bound by 'o2o (finding F-11d, repaired in
+   /repo); every other lifetime argument of the counterpart path is *)
+Theorem C11_declarable : forall l x, In x (declarable_lts l) <-> In x l /\ x <> "static"%string /\ x <> "_"%string.
+Proof. exact declarable_spec. Qed.
+Print Assumptions C11_declarable.
